@@ -153,3 +153,43 @@ def _one(v):
     if v == 'missing':
         return 'missing'
     return 'other-value:' + type(v).__name__
+
+
+def run_on_real_sockets(cfg, timeout=10.0):
+    """Conformance: the same scenario over real gevent sockets (socketpair) on the real gevent loop.
+    Only for scenarios without TLS and without stalls.  Returns (per-recipient classes, whole, accepted set)."""
+    import gevent.socket
+    peers = []
+    scripts = cfg.get('scripts') or [cfg.get('script', {})]
+
+    def creator(address):
+        if cfg.get('connect') == 'refused':
+            raise _socket.error(111, 'Connection refused')
+        a, b = gevent.socket.socketpair()
+        script = scripts[min(len(peers), len(scripts) - 1)]
+        p = ScriptedPeer(b, script, lmtp=cfg.get('lmtp', False), pipelining=cfg.get('pipelining', True), auth=False)
+        peers.append(p)
+        gevent.spawn(p.run)
+        return a
+    cls = StaticLmtpRelay if cfg.get('lmtp') else StaticSmtpRelay
+    relay = cls('mx.test', 24 if cfg.get('lmtp') else 25, socket_creator=creator, ehlo_as='relay.test',
+                connect_timeout=5.0, command_timeout=5.0, data_timeout=5.0)
+    env = make_envelope(0, cfg.get('n', 2), cfg.get('body', b'Subject: m%d\r\n\r\nbody\r\n'))
+    box = {}
+
+    def go():
+        try:
+            box['o'] = ('returned', relay.attempt(env, 0))
+        except gevent.GreenletExit:
+            raise
+        except BaseException as e:
+            box['o'] = ('raised', e)
+    g = gevent.spawn(go)
+    g.join(timeout=timeout)
+    per, whole = classify(box.get('o'), env)
+    acc = set()
+    for p in peers:
+        acc |= set((a.decode('latin-1'), b.decode('latin-1')) for a, b in p.accepted())
+    if not g.dead:
+        g.kill()
+    return per, whole, acc
